@@ -224,6 +224,7 @@ fn worker_loop(prop: Arc<dyn Prop>, tier: Tier, from: u64, to: u64, step: bool, 
     let chunk = if step { 1 } else { prop.chunk(tier) };
     let known = load_known();
     let dump_all = std::env::var("VERIF_DUMP_FAILS").is_ok();
+    let rss_limit: u64 = std::env::var("VERIF_WORKER_RSS_MB").ok().and_then(|s| s.parse().ok()).unwrap_or(2500);
     let mut i = from;
     while i < to {
         let end = (i + chunk).min(to);
@@ -306,8 +307,23 @@ fn worker_loop(prop: Arc<dyn Prop>, tier: Tier, from: u64, to: u64, step: bool, 
         println!("C {}", serde_json::to_string(&s).unwrap());
         let _ = std::io::stdout().flush();
         i = end;
+        // mimium's interner is process-global and never shrinks: a worker that has grown past the limit hands the
+        // rest of its shard back to the driver, which continues in a fresh process
+        if i < to && !step && rss_mb() > rss_limit {
+            println!("R {i}");
+            let _ = std::io::stdout().flush();
+            return;
+        }
     }
     println!("D");
+}
+
+fn rss_mb() -> u64 {
+    std::fs::read_to_string("/proc/self/statm")
+        .ok()
+        .and_then(|s| s.split_whitespace().nth(1).and_then(|x| x.parse::<u64>().ok()))
+        .map(|pages| pages * 4096 / (1 << 20))
+        .unwrap_or(0)
 }
 
 // ---------------------------------------------------------------- known findings
@@ -402,6 +418,8 @@ enum WorkerEnd {
     /// worker died; chunk starting at `from` (or index) is suspect
     Died { status: String, last_begun: Option<u64>, next_unfinished: u64 },
     Timeout { idx: u64 },
+    /// worker stopped on its own at a chunk boundary (memory limit): continue from `next` in a fresh process
+    Recycle { next: u64 },
 }
 
 fn run_worker(
@@ -419,7 +437,7 @@ fn run_worker(
 /// (a machine under memory pressure can make a millisecond case burn seconds of system time).
 fn confirm_timeout(prop: &dyn Prop, tier: Tier, idx: u64, agg: &Mutex<Agg>) {
     match run_worker_capped(prop.id(), tier, idx, idx + 1, true, 6, agg) {
-        WorkerEnd::Done => {}
+        WorkerEnd::Done | WorkerEnd::Recycle { .. } => {}
         WorkerEnd::Timeout { .. } => agg.lock().unwrap().crashes.push((idx, "timeout (watchdog)".into())),
         WorkerEnd::Died { status, .. } => agg.lock().unwrap().crashes.push((idx, status)),
     }
@@ -454,6 +472,7 @@ fn run_worker_capped(
     let mut last_begun = None;
     let mut done = false;
     let mut timeout = None;
+    let mut recycle: Option<u64> = None;
     for line in rd.lines() {
         let Ok(line) = line else { break };
         if let Some(rest) = line.strip_prefix("C ") {
@@ -503,6 +522,8 @@ fn run_worker_capped(
             last_begun = rest.trim().parse().ok();
         } else if let Some(rest) = line.strip_prefix("T ") {
             timeout = rest.trim().parse().ok();
+        } else if let Some(rest) = line.strip_prefix("R ") {
+            recycle = rest.trim().parse().ok();
         } else if line == "D" {
             done = true;
         }
@@ -514,6 +535,12 @@ fn run_worker_capped(
     }
     if done && st.success() {
         return WorkerEnd::Done;
+    }
+    if let Some(next) = recycle
+        && st.success()
+        && next == next_unfinished
+    {
+        return WorkerEnd::Recycle { next };
     }
     WorkerEnd::Died {
         status: format!("{st}"),
@@ -528,6 +555,7 @@ fn run_shard(prop: &dyn Prop, tier: Tier, mut from: u64, to: u64, agg: &Mutex<Ag
     while from < to {
         match run_worker(prop.id(), tier, from, to, false, agg) {
             WorkerEnd::Done => return,
+            WorkerEnd::Recycle { next } => from = next,
             WorkerEnd::Timeout { idx } => {
                 confirm_timeout(prop, tier, idx, agg);
                 // the chunk containing idx was not reported: redo its head in step mode
@@ -569,6 +597,7 @@ fn step_range(prop: &dyn Prop, tier: Tier, mut from: u64, to: u64, agg: &Mutex<A
     while from < to {
         match run_worker(prop.id(), tier, from, to, true, agg) {
             WorkerEnd::Done => return,
+            WorkerEnd::Recycle { next } => from = next,
             WorkerEnd::Timeout { idx } => {
                 confirm_timeout(prop, tier, idx, agg);
                 from = idx + 1;
